@@ -668,6 +668,9 @@ class Audit:
                     break
         if j:
             self.used_justifications.add(s.key)
+            if not hasattr(self, "descs"):
+                self.descs = {}
+            self.descs[s.key] = self._describe(B, cx, s)
             missing = self._requires(s.fn, j.get("requires", []))
             if missing:
                 s.verdict = "open"
@@ -676,13 +679,109 @@ class Audit:
             s.verdict, s.reason = "justified", j["reason"]
             return
         desc = self._describe(B, cx, s)
-        for gi, g in enumerate(self.groups):
-            if (s.fn == g.get("fn") or ("fn_rx" in g and re.search(g["fn_rx"], s.fn))) and \
-                    re.search(g["what"], _short_what(s.what)) and re.search(g["operands"], desc):
-                self.group_hits[gi].append(s.key)
-                s.verdict, s.reason = "justified", "[group %s] %s" % (g["name"], g["reason"])
-                return
+        if self._by_table(s, s.fn, desc):
+            return
+        # second attempt, with the function's calls of small repository helpers inlined (MIR): a value computed by a
+        # helper (`read_u16_operand(code, ip)`) is then seen as the expression the helper computes
+        if getattr(self.F, "config", "default") == "default" and self._with_helpers_inlined(s):
+            return
         s.verdict, s.reason = "open", desc
+        # third attempt: a site inside a helper all of whose callers are known is evaluated in the context of each caller
+        self._via_callers(s, desc)
+
+    def _by_table(self, s, fn, desc, key=None):
+        """justified by a reviewed entry of function `fn`: same content as a per-site entry (the ordinal in the key is
+        only the first thing tried), or a group"""
+        wn = _norm_what(s.what)
+        for k2, j2 in self.justified.items():
+            kp = k2.split(" | ")
+            if j2.get("desc") and len(kp) == 3 and kp[0] == fn and _norm_what(kp[1]) == wn and _norm_desc(j2["desc"]) == _norm_desc(desc):
+                if self._requires(fn, j2.get("requires", [])):
+                    continue
+                self.used_justifications.add(k2)
+                s.verdict, s.reason = "justified", "[same site as %s] %s" % (k2.rsplit(" | ", 1)[1], j2["reason"])
+                return True
+        for gi, g in enumerate(self.groups):
+            if (fn == g.get("fn") or ("fn_rx" in g and re.search(g["fn_rx"], fn))) and \
+                    (re.search(g["what"], _short_what(s.what)) or re.search(g["what"], wn)) and re.search(g["operands"], _norm_desc(desc)):
+                self.group_hits[gi].append(key or s.key)
+                s.verdict, s.reason = "justified", "[group %s] %s" % (g["name"], g["reason"])
+                return True
+        return False
+
+    INLINE_MAX = 120
+
+    def _inlined(self, q, must=None, only=False):
+        """(fn', where, Body) of q with its calls of small repository functions (and of `must`; with `only`, of `must`
+        alone, so that the rest of q reads as it does in the reviewed tables) inlined"""
+        if not hasattr(self, "_inl"):
+            self._inl = {}
+        k = (q, must, only)
+        if k not in self._inl:
+            fns = self.F.fns
+            elig = lambda c: c != q and (c == must or (not only and len(fns[c]["mir"]["blocks"]) <= self.INLINE_MAX))
+            f2, wh = M.inline_calls(self.F, fns[q], elig, depth=1 if only else 2)
+            self._inl[k] = (f2, wh, M.Body(f2)) if wh else None
+        return self._inl[k]
+
+    def _try(self, B, s):
+        cx = Ctx(B, self.F)
+        r = self._assert(B, cx, s) if s.kind == "assert" else self._call(B, cx, s)
+        return r, cx
+
+    def _with_helpers_inlined(self, s):
+        inl = self._inlined(s.fn)
+        if inl is None:
+            return False
+        f2, wh, B2 = inl
+        r, cx2 = self._try(B2, s)
+        if r:
+            s.verdict, s.reason = "discharged", r + " (helpers inlined)"
+            return True
+        return self._by_table(s, s.fn, self._describe(B2, cx2, s))
+
+    def _via_callers(self, s, desc):
+        p = s.fn
+        if p.startswith("<") or "{closure" in p or "::<impl " in p and " for " in p:
+            return False
+        sites, addr = self.callers_of(p)
+        if addr or not sites or len(sites) > 40:
+            return False
+        for q, f in self.F.fns.items():
+            for b in f["mir"]["blocks"]:
+                t = b["term"]
+                if t["k"] == "call" and t.get("callee") is None and t.get("decl") == p:
+                    return False
+        reasons = []
+        for (q, bi) in sites:
+            if q == p:
+                return False
+            done, d2 = False, ""
+            for only in (True, False):
+                inl = self._inlined(q, must=p, only=only)
+                if inl is None or (bi, p) not in inl[1]:
+                    return False
+                f2, wh, B2 = inl
+                nb = wh[(bi, p)] + s.bb
+                t = B2.blocks[nb]["term"]
+                s2 = Site(q, nb, s.kind, s.what, t["msg"] if s.kind == "assert" else t, s.line, s.exp)
+                s2.cls, s2.key = s.cls, s.key
+                r, cx2 = self._try(B2, s2)
+                if r:
+                    reasons.append("%s: %s" % (M.short_callee(q), r))
+                    done = True
+                    break
+                d2 = self._describe(B2, cx2, s2)
+                if self._by_table(s2, q, d2, key=s.key + " @ " + q):
+                    reasons.append("%s: %s" % (M.short_callee(q), s2.reason[:80]))
+                    done = True
+                    break
+            if not done:
+                s.reason = "%s — also open in the context of its caller %s: %s" % (desc, q, d2)
+                return False
+        s.verdict = "discharged"
+        s.reason = "in the context of each of its %d call sites (helper inlined into the caller): %s" % (len(sites), "; ".join(sorted(set(reasons)))[:200])
+        return True
 
     def _requires(self, fn, reqs):
         """each required fragment must occur in the canonical rendering of the function's HIR body"""
@@ -710,15 +809,14 @@ class Audit:
         return None
 
     def _describe(self, B, cx, s):
+        """the site with its operands as symbolic terms over the function's parameters, named variables and calls
+        (temporaries substituted, `&*x` collapsed, nothing truncated): what the reviewed tables are matched against"""
+        sh = lambda o: M.show(_simp(B.sym_op(o, through_vars="pure")), -30)
         if s.kind == "assert":
             m = s.operands
-            parts = []
-            for k in ("len", "index", "a", "b"):
-                if k in m and isinstance(m[k], dict):
-                    parts.append("%s=%s" % (k, M.show(B.sym_op(m[k], through_vars="pure"))[:70]))
+            parts = ["%s=%s" % (k, sh(m[k])) for k in ("len", "index", "a", "b") if k in m and isinstance(m[k], dict)]
             return "%s %s" % (s.what, ", ".join(parts))
-        t = s.operands
-        return "%s(%s)" % (M.short_callee(s.what), ", ".join(M.show(B.sym_op(a, through_vars="pure"))[:60] for a in t["args"]))
+        return "%s(%s)" % (M.short_callee(s.what), ", ".join(sh(a) for a in s.operands["args"]))
 
     def _assert(self, B, cx, s):
         m = s.operands
@@ -739,6 +837,10 @@ class Audit:
             ty = (tys.pop() if len(tys) == 1 else None)
             if op in ("Add", "Mul") and ty in ("usize", "isize"):
                 return "type rule A1: usize %s on interpreter bookkeeping" % op.lower()
+            if op == "Add" and ty in ("i64", "u64", "i128", "u128"):
+                r = self._accumulator(B, cx, m)
+                if r:
+                    return r
             if op == "Sub" and ty in UNSIGNED:
                 goal = cx.lin(a).add(cx.lin(b), -1)
                 r = prove_ge0(goal, facts, cx.nonneg)
@@ -764,6 +866,52 @@ class Audit:
             return None
         return None
 
+    def _accumulator(self, B, cx, m):
+        """a 64-bit local that starts at 0 and is only ever advanced by in-memory lengths (`x.len() as i64`) or by
+        constants up to 8 cannot reach 2^63: that takes 2^63 bytes of live text or 2^60 steps"""
+        a, b = m["a"], m["b"]
+        if a.get("k") not in ("copy", "move") or a["pl"]["p"]:
+            return None
+        l = a["pl"]["l"]
+        if l <= B.arg_count:
+            return None
+
+        def small_step(op):
+            sb = B.sym_op(op, through_vars="pure")
+            if sb[0] == "const" and isinstance(sb[1], int) and 0 <= sb[1] <= 8:
+                return True
+            if sb[0] == "cast" and sb[3] == "IntToInt":
+                inner = sb[2]
+                if inner[0] == "call" and inner[1] and LEN_CALLS.search(inner[1]):
+                    return True
+                if inner[0] == "un" and inner[1] == "PtrMetadata":
+                    return True
+            return False
+        if not small_step(b):
+            return None
+        for (bi, si, node) in B.defs().get(l, []):
+            if si == "term":
+                return None
+            rv = node["rv"]
+            if rv["k"] == "use" and rv["a"]["k"] == "const" and rv["a"].get("val") == 0:
+                continue
+            # l = move (tmp.0) with tmp = AddWithOverflow(l, step)
+            if rv["k"] == "use" and rv["a"]["k"] in ("copy", "move"):
+                src = B.sym_op(rv["a"], through_vars="pure")
+                if src[0] == "field" and src[2] == "0" and src[1][0] == "bin" and src[1][1] in ("AddWithOverflow", "Add"):
+                    x, y = src[1][2], src[1][3]
+                    if x[0] == "var" and x[2] == l:
+                        continue
+            if rv["k"] == "bin" and rv["op"] in ("Add", "AddWithOverflow") and rv["a"].get("pl", {}).get("l") == l:
+                continue
+            return None
+        # every assignment through a projection or a borrow of the local would escape this reasoning
+        for bk in B.blocks:
+            for st in bk["stmts"]:
+                if st["k"] == "assign" and st["rv"]["k"] in ("ref", "rawptr") and st["rv"]["pl"]["l"] == l:
+                    return None
+        return "accumulator rule A2: a 64-bit local counted up from 0 by in-memory lengths / small constants cannot reach 2^63"
+
     def _call(self, B, cx, s):
         t = s.operands
         c = s.what
@@ -776,8 +924,10 @@ class Audit:
             # range indexing: agg of Range / RangeFrom / RangeTo
             if idx[0] == "agg":
                 ak = idx[1]
-                ln = Lin({len_atom(base): 1})
-                cx.nonneg.add(len_atom(base))
+                ln = cx.lin(("un", "PtrMetadata", base))
+                m = re.search(r"\[[^;\]]+; (\d+)\]", _base_ty(t))
+                if m:
+                    ln = Lin(k=int(m.group(1)))
                 if ak.endswith("RangeFrom"):
                     goal = ln.add(cx.lin(idx[2][0]), -1)
                     r = prove_ge0(goal, facts, cx.nonneg)
@@ -808,6 +958,19 @@ class Audit:
             e = self._enum_index(B, base, idx)
             if e:
                 return e
+            return None
+        if cls == "repeat" and len(args) == 2:
+            # str::repeat(s, n) panics on capacity overflow only (an allocation-size failure, outside the property) — provided
+            # the count is not a negative number reinterpreted as unsigned
+            cnt = args[1]
+            signed_src = [x for x in M.subterms(cnt) if x[0] == "cast" and x[1] in UNSIGNED and (cx.ty_of(x[2]) in SIGNED or cx.ty_of(x[2]) is None)]
+            ok = True
+            for x in signed_src:
+                if not prove_ge0(cx.lin(x[2]), facts, cx.nonneg):
+                    ok = False
+            if ok:
+                return "count is not negative (%s); str::repeat then panics only on capacity overflow, an allocation-size failure" % \
+                    ("guarded" if signed_src else "unsigned arithmetic")
             return None
         if cls == "refcell":
             if not hasattr(self, "_rc"):
@@ -886,6 +1049,29 @@ class Audit:
                                 # the count variant itself is never a token/prop value (checked: nothing constructs it)
                                 return "enum-index: %s has %d value variants, table %s has %d entries" % (ety, len(others), H.last(static), size)
         return None
+
+
+def _simp(s):
+    """collapse `&*x` / `*&x` in a symbolic term"""
+    if not isinstance(s, tuple):
+        return s
+    if not s or not isinstance(s[0], str):
+        return tuple(_simp(x) for x in s)
+    s = tuple(_simp(x) if isinstance(x, tuple) else x for x in s)
+    if s[0] in ("ref", "deref") and isinstance(s[1], tuple) and s[1] and s[1][0] == ("deref" if s[0] == "ref" else "ref"):
+        return s[1][1]
+    return s
+
+
+def _norm_what(w):
+    """container-independent name of an indexing operation (Vec, slice, array and str index through different impls)"""
+    w = _short_what(w)
+    m = re.match(r"^(?:index|array|traits)::(index(?:_mut)?)$", w)
+    return m.group(1) if m else w
+
+
+def _norm_desc(d):
+    return re.sub(r"^(?:index|array|traits)::(index(?:_mut)?)\(", r"\1(", d)
 
 
 def _short_what(w):
